@@ -14,8 +14,8 @@ import SphericalVerif.Props.GenChain
     Proved by `frame_step`, a tactic that decomposes the generated text with the closure rules of `Lemmas/Frame` (stores,
     conditionals, loops): it succeeds iff every `fwr`/`fwrC` of the text names one of the listed arrays, so a change that makes a
     kernel write elsewhere breaks the proof. -/
-namespace Frame
-open Gen
+namespace Footprint
+open Gen Frame
 
 section
 variable {α : Type} [Scalar α] {φ : Type} [FMem φ α] [LawfulFMem φ α]
@@ -117,4 +117,4 @@ theorem gen_D_chain_inplace (L : Nat) (ell_min : Int) (zI aI gI DI : Nat) (a b d
       = frdC (α := α) st2 aI i := fun i => Only.frdC _ _ _ fg aI i (by simp; exact hag)
   simp only [eW, eA]
 end
-end Frame
+end Footprint
